@@ -316,4 +316,11 @@ example :
 example : scan (fun x => x % 2 = 0) false 5 [1, 2, 3, 4, 5] [] = ([4, 2], [1, 3, 5]) := by decide
 example : scan (fun x => x % 2 = 0) true 5 [1, 2, 3, 4, 5] [] = ([4], [5, 1, 2, 3]) := by decide
 
+/-- the models take a timed post's "capacity test + tracking" and each `cancel_event` / `cancel_events` call as steps that do not
+interleave with one another: in the source they all run under the object's `posted_events_lock` (as does the snapshot `stop()`
+takes). Without the lock a timed post made by another thread while a cancel is rotating the list makes the cancel pop the new
+source's record instead of the one it matched: that source keeps running untracked and survives a later `stop()` (found by the
+schedule replay, fixed in /repo). Fails to build when the translator no longer finds every use of the list under the lock. -/
+theorem tracked_list_is_serialised_in_source : Miros.Gen.aoTrackingLocked = true := by decide
+
 end Miros.Props.C11
